@@ -783,10 +783,93 @@ def render_standardiser():
     return "\n".join(out)
 
 
+# --------------------------------------------------------------------------- decorators (C16)
+REL_DECORATORS = os.path.join("CobaldVerif", "Generated", "SrcDecorators.lean")
+
+
+def proxy_shape():
+    """PoolDecorator: supply / demand / utilisation / allocation read the target's attribute of the same name,
+    and a demand write is `self.target.demand = value`, nothing else"""
+    from cobald.interfaces import PoolDecorator
+    for name in ("supply", "demand", "utilisation", "allocation"):
+        member = inspect.getattr_static(PoolDecorator, name)
+        if not isinstance(member, property):
+            raise Untranslatable("%s is not a property" % name)
+        src = [ast.unparse(x) for x in _fn_body(member.fget)]
+        if src != ["return self.target.%s" % name]:
+            raise Untranslatable("%s getter: %s" % (name, src))
+        if name != "demand" and member.fset is not None:
+            raise Untranslatable("%s has a setter" % name)
+    src = [ast.unparse(x) for x in _fn_body(inspect.getattr_static(PoolDecorator, "demand").fset)]
+    if src != ["self.target.demand = value"]:
+        raise Untranslatable("demand setter: %s" % src)
+    return "true"
+
+
+def logger_fields():
+    """Logger's demand setter: one `self._logger.log(self.level, self.message, {<fields>})` call followed by
+    `self.target.demand = value`; returns the fields of the record as (name, source expression) pairs"""
+    from cobald.decorator.logger import Logger
+    member = inspect.getattr_static(Logger, "demand")
+    if [ast.unparse(x) for x in _fn_body(member.fget)] != ["return self.target.demand"]:
+        raise Untranslatable("Logger demand getter")
+    st = _fn_body(member.fset)
+    if len(st) != 2 or ast.unparse(st[1]) != "self.target.demand = value":
+        raise Untranslatable("Logger setter: %s" % [ast.unparse(x)[:40] for x in st])
+    call = st[0].value if isinstance(st[0], ast.Expr) else None
+    if not (isinstance(call, ast.Call) and ast.unparse(call.func) == "self._logger.log" and len(call.args) == 3 and not call.keywords
+            and ast.unparse(call.args[0]) == "self.level" and ast.unparse(call.args[1]) == "self.message" and isinstance(call.args[2], ast.Dict)):
+        raise Untranslatable("log call: %s" % ast.unparse(st[0])[:80])
+    d = call.args[2]
+    pairs = []
+    for k, v in zip(d.keys, d.values):
+        if not (isinstance(k, ast.Constant) and isinstance(k.value, str)):
+            raise Untranslatable("field key %s" % ast.unparse(k))
+        pairs.append((k.value, ast.unparse(v)))
+    return "[" + ", ".join('("%s", "%s")' % kv for kv in pairs) + "]"
+
+
+def buffer_shape():
+    """Buffer: `demand` is a plain stored attribute (no property), set to the target's demand by the constructor;
+    `run` compares it with the target's demand and writes it when they differ, once per window"""
+    from cobald.decorator.buffer import Buffer
+    if isinstance(inspect.getattr_static(Buffer, "demand"), property):
+        raise Untranslatable("Buffer.demand is a property")
+    init = [ast.unparse(x) for x in _fn_body(Buffer.__init__)]
+    if init != ["super().__init__(target=target)", "self.window = window", "self.demand = target.demand"]:
+        raise Untranslatable("Buffer.__init__: %s" % init)
+    st = _fn_body(Buffer.run)
+    if len(st) != 1 or not isinstance(st[0], ast.While) or ast.unparse(st[0].test) != "True":
+        raise Untranslatable("Buffer.run is not one endless loop")
+    body_ = [ast.unparse(x) for x in st[0].body]
+    if body_ != ["if self.demand != self.target.demand:\n    self.target.demand = self.demand", "await trio.sleep(self.window)"]:
+        raise Untranslatable("Buffer.run loop: %s" % body_)
+    return "true"
+
+
+def render_decorators():
+    out = ["/- GENERATED by harness/vh/translate.py from the source text of /repo (interfaces/_proxy.py, decorator/logger.py,",
+           "   decorator/buffer.py) — do not edit.  Regenerated on every run of the C16 check. -/", "",
+           "namespace Cobald.Gen.Decorators", ""]
+
+    def emit(name, typ, thunk):
+        try:
+            out.append("def %s : %s :=\n  %s\n" % (name, typ, thunk()))
+        except Untranslatable as e:
+            out.append("-- untranslatable (%s)\ndef %sUntranslatable : String := \"source outside the translated subset\"\n"
+                       % (str(e)[:100].replace("\n", " "), name))
+    emit("proxyShape", "Bool", proxy_shape)
+    emit("loggerFields", "List (String × String)", logger_fields)
+    emit("bufferShape", "Bool", buffer_shape)
+    out += ["end Cobald.Gen.Decorators", ""]
+    return "\n".join(out)
+
+
 def regenerate():
     """returns True if the generated text changed"""
     a = lean.write_generated(REL, render())
     b = lean.write_generated(REL_COMPOSITE, render_composite())
     c = lean.write_generated(REL_CONTROLLERS, render_controllers())
     d = lean.write_generated(REL_STANDARDISER, render_standardiser())
-    return a or b or c or d
+    e = lean.write_generated(REL_DECORATORS, render_decorators())
+    return a or b or c or d or e
